@@ -20,43 +20,51 @@ CONSTANTS Ids, OutFile, EmitVectors
 States == {"running", "exited", "dead", "absent"}
 RtModes == {"up", "err", "down"}          \* answers, answers 500, unreachable
 
-VARIABLES ctr, rt, files, portcb, removedLive, removedBlind
-vars == <<ctr, rt, files, portcb, removedLive, removedBlind>>
+VARIABLES ctr, rt, bad, files, portcb, removedLive, removedBlind
+vars == <<ctr, rt, bad, files, portcb, removedLive, removedBlind>>
 \* files: set of [dir, id] (dir "state" or "ip"); portcb: ids for which the port clean-up ran
+\* bad: containers whose inspect call fails (500) although the runtime answers for the others -- "runtime errors on any
+\*      inspect call": nothing of theirs may be collected, and they must not keep the others' leftovers from being collected
 
-Collectable(c, r, id) == r = "up" /\ c[id] \in {"exited", "dead", "absent"}
+Collectable(c, r, b, id) == r = "up" /\ id \notin b /\ c[id] \in {"exited", "dead", "absent"}
 
-Init == /\ ctr \in [Ids -> States] /\ rt \in RtModes
+Init == /\ ctr \in [Ids -> States] /\ rt \in RtModes /\ bad \in {b \in SUBSET Ids : Cardinality(b) <= 1}
         /\ files = {[dir |-> d, id |-> i] : d \in {"state", "ip"}, i \in Ids}
         /\ portcb = {} /\ removedLive = FALSE /\ removedBlind = FALSE
-Round == LET gone == {f \in files : Collectable(ctr, rt, f.id)} IN
+Round == LET gone == {f \in files : Collectable(ctr, rt, bad, f.id)} IN
          /\ files' = files \ gone
          /\ portcb' = portcb \cup {f.id : f \in {g \in gone : g.dir = "state"}}
          /\ removedLive' = (removedLive \/ \E f \in gone : ctr[f.id] = "running")
-         /\ removedBlind' = (removedBlind \/ (rt # "up" /\ gone # {}))
-         /\ UNCHANGED <<ctr, rt>>
+         /\ removedBlind' = (removedBlind \/ (rt # "up" /\ gone # {}) \/ \E f \in gone : f.id \in bad)
+         /\ UNCHANGED <<ctr, rt, bad>>
 ContainerDies(i) == /\ ctr[i] = "running" /\ \E s \in {"exited", "dead", "absent"} : ctr' = [ctr EXCEPT ![i] = s]
-                    /\ UNCHANGED <<rt, files, portcb, removedLive, removedBlind>>
+                    /\ UNCHANGED <<rt, bad, files, portcb, removedLive, removedBlind>>
 RuntimeChanges == /\ \E m \in RtModes : m # rt /\ rt' = m
-                  /\ UNCHANGED <<ctr, files, portcb, removedLive, removedBlind>>
-Next == Round \/ (\E i \in Ids : ContainerDies(i)) \/ RuntimeChanges
+                  /\ UNCHANGED <<ctr, bad, files, portcb, removedLive, removedBlind>>
+\* the inspect fault of a container goes away (it only ever shrinks, so that "eventually" has a meaning)
+InspectRepaired == /\ bad # {} /\ bad' = {}
+                   /\ UNCHANGED <<ctr, rt, files, portcb, removedLive, removedBlind>>
+Next == Round \/ (\E i \in Ids : ContainerDies(i)) \/ RuntimeChanges \/ InspectRepaired
 Spec == Init /\ [][Next]_vars /\ WF_vars(Round)
 
 NeverCollectLive == ~removedLive /\ \A i \in Ids : ctr[i] = "running" => \A d \in {"state", "ip"} : [dir |-> d, id |-> i] \in files
 FailSafe == ~removedBlind
 PortCleanedBeforeStateFile == \A i \in Ids : [dir |-> "state", id |-> i] \notin files => i \in portcb
 \* once the runtime answers for good, everything a dead container left behind goes away
-EventuallyCollected == (<>[](rt = "up")) => <>[](\A f \in files : ctr[f.id] = "running")
+\* (a container whose own inspect keeps failing is the one exception: the runtime "cannot be asked" about it)
+EventuallyCollected == (<>[](rt = "up")) => <>[](\A f \in files : ctr[f.id] = "running" \/ f.id \in bad)
 
 (* ---- vectors: containers x runtime phases; expected files after each phase (each phase lasts >= 2 rounds) ---- *)
 Phases == UNION {[1..n -> RtModes] : n \in 1..2}
-After(c, fs, m) == {f \in fs : ~Collectable(c, m, f.id)}
-RECURSIVE Expect(_, _, _, _)
-Expect(c, fs, ph, i) == IF i > Len(ph) THEN <<>> ELSE LET nf == After(c, fs, ph[i]) IN <<nf>> \o Expect(c, nf, ph, i + 1)
+After(c, fs, m, b) == {f \in fs : ~Collectable(c, m, b, f.id)}
+RECURSIVE Expect(_, _, _, _, _)
+Expect(c, fs, ph, i, b) == IF i > Len(ph) THEN <<>> ELSE LET nf == After(c, fs, ph[i], b) IN <<nf>> \o Expect(c, nf, ph, i + 1, b)
 AllFiles == {[dir |-> d, id |-> i] : d \in {"state", "ip"}, i \in Ids}
 \* porterr: containers whose port clean-up callback returns an error (e.g. an unreadable port file): what a dead
 \* container left behind is removed all the same
-Vectors == {[ctr |-> c, phases |-> ph, porterr |-> pe, expect |-> Expect(c, AllFiles, ph, 1)] :
-              c \in [Ids -> States], ph \in Phases, pe \in {{}, {CHOOSE i \in Ids : TRUE}, Ids}}
+\* bad: at most one container whose inspect fails throughout the scenario while the runtime answers for the others
+Vectors == {[ctr |-> c, phases |-> ph, porterr |-> pe, bad |-> b, expect |-> Expect(c, AllFiles, ph, 1, b)] :
+              c \in [Ids -> States], ph \in Phases, pe \in {{}, {CHOOSE i \in Ids : TRUE}, Ids},
+              b \in {x \in SUBSET Ids : Cardinality(x) <= 1}}
 ASSUME EmitVectors => JsonSerialize(OutFile, [n |-> Cardinality(Vectors), vectors |-> Vectors])
 =============================================================================
